@@ -51,6 +51,7 @@ PAYLOADS = ["a", "a'b", 'a"b', "a\\b", "é", ""]
 # correspondence and say so in the evidence — it is not by itself a violation)
 PINNED_FILE = os.path.join(VERIF, "lib", "props", "C18_pinned.json")
 SUPPORT_FILE = os.path.join(VERIF, "lib", "props", "C18_support.json")
+CERT_FILE = os.path.join(VERIF, "lib", "props", "C18_certified.json")
 
 
 def _bx(fn, *a, **k):
@@ -702,6 +703,43 @@ def dynamic(run, tr, sh, thorough):
             v, ref, text, g = example[(c, d)]
             D["viol"].append({"kind": "support-lost", "value": v, "dialect": d, "context": "sa", "text": text, "ref_text": ref,
                               "observed": g["sa"], "known": [], "tag": "support-matrix", "corpus_sql": None})
+    # the same at value level for the exhaustively enumerated kinds (leaf .. depth2): which (value, dialect) pairs certify.
+    # A pair that is lost means: the reference spelling of that very value no longer parses to it there (e.g. `INT[3][]`
+    # read back with both dimensions sized) -- a regression, not a change of scope.
+    import hashlib
+    certified_now, example_v = {}, {}
+    for v, tag, ref, r in D["obs"]:
+        if tag not in ("leaf", "depth1", "special", "depth2"):
+            continue
+        h = hashlib.sha1(jd(v).encode()).hexdigest()[:12]
+        mask = 0
+        for g in r["groups"]:
+            for d in g["dialects"]:
+                if g.get("cert"):
+                    mask |= 1 << DIALECTS.index(d)
+                else:
+                    example_v[(h, d)] = (v, ref, r["text"], g)
+        certified_now[h] = mask
+    try:
+        pinned_cert = json.load(open(CERT_FILE))
+    except FileNotFoundError:
+        pinned_cert = {}
+    lost_values = []
+    for h, mask in pinned_cert.items():
+        now = certified_now.get(h)
+        if now is None:
+            continue
+        for i, d in enumerate(DIALECTS):
+            if mask >> i & 1 and not now >> i & 1 and (h, d) in example_v:
+                lost_values.append((h, d))
+    for h, d in lost_values[:20]:
+        v, ref, text, g = example_v[(h, d)]
+        if (ctor_of(v), d) not in lost:
+            D["viol"].append({"kind": "support-lost", "value": v, "dialect": d, "context": "sa", "text": text, "ref_text": ref,
+                              "observed": g["sa"], "known": [], "tag": "certified-values", "corpus_sql": None})
+    run.notes["certified_values"] = {"values": len(certified_now), "pinned": len(pinned_cert), "lost_pairs": len(lost_values)}
+    if os.environ.get("C18_WRITE_SUPPORT") == "1":
+        json.dump(certified_now, open(CERT_FILE, "w"), indent=0, sort_keys=True)
     D["support"] = {c: sorted(ds, key=DIALECTS.index) for c, ds in sorted(support.items())}
     if os.environ.get("C18_WRITE_SUPPORT") == "1":   # maintenance only: re-pin after a reviewed change
         json.dump(D["support"], open(SUPPORT_FILE, "w"), indent=0, sort_keys=True)
